@@ -155,9 +155,11 @@ class Engine(
                 # so no need to recurse.
                 return Select.apply_skip(relation)
             case MarkerRelation(target=target):
-                # Other marker relations.
-                conformed_target = self.conform(target)
-                return Select.apply_skip(conformed_target)
+                # Other marker relations: these are dropped, and wrapping the
+                # conformed target in another Select would only bury whatever
+                # Sort it has in a subquery, out of sight of the checks that
+                # refuse operations that cannot preserve row order.
+                return self.conform(target)
         raise AssertionError("Match should be exhaustive and all branches return.")
 
     def materialize(
